@@ -214,6 +214,14 @@ func (fr *Frame) call(v ssa.Value, cc *ssa.CallCommon, st *State, ins ssa.Instru
 	if c.wantTermination() && c.fn != nil && c.eng.inModule(callee) && callee.Blocks != nil && c.eng.reaches(callee, c.fn) {
 		fr.recursionObligation(callee, cc, st, pos)
 	}
+	if c.wantTermination() && fr.top && c.eng.inModule(callee) && callee.Blocks != nil {
+		// termination is modular: a callee whose own termination is not claimed is a stated gap
+		if fc := c.eng.cs.Funcs[name]; fc == nil || (!fc.Terminates && !fc.Trusted && !fc.Assumed) {
+			if fc != nil || !fr.canInline(callee) {
+				c.abstracted("termination of the callee " + shortFuncName(name) + " is not claimed by any contract (only this function's own loops and recursion are)")
+			}
+		}
+	}
 	if fc := c.eng.cs.Funcs[name]; fc != nil {
 		how := "contract"
 		if fc.Trusted {
